@@ -62,7 +62,7 @@ theorem copyLen_le_size (zc : Bool) (thr : Nat) (api : StrApi) (ops : List Op) :
   | cons o os ih =>
     simp only [copyLenAll, Len.binLen, List.map_cons, List.sum_cons] at ih ⊢
     have : copyLen zc thr api o ≤ Len.binOp o := by
-      cases o <;> simp [copyLen, Len.binOp]; split <;> omega
+      cases o <;> simp [copyLen, Len.binOp] <;> split <;> omega
     omega
 
 open Linked in
